@@ -399,8 +399,10 @@ func (hs *clientHandshakeStateTLS13) processHelloRetryRequest() error {
 				return errors.New("uTLS does not support reprocessing of PSK key triggered by HelloRetryRequest")
 			}
 
-			hs.uconn.extraEcdheKeys = nil // the second ClientHello carries exactly one fresh share
-			hs.uconn.extraHybridKeys = nil
+			if hs.serverHello.selectedGroup != 0 {
+				hs.uconn.extraEcdheKeys = nil // the second ClientHello carries exactly one fresh share
+				hs.uconn.extraHybridKeys = nil
+			}
 			keyShareExtFound := false
 			for _, ext := range hs.uconn.Extensions {
 				// new ks seems to be generated either way
